@@ -1,21 +1,31 @@
 """C19 — Blocked-reaction and consistency analyses agree with the true flux ranges."""
 from contracts import misc_small, c05_fva as C5  # noqa
+from contracts import c19_blocked as C19
+from pyvc.contract import chain_hooks
 from props._generic import run_property, replay_with_driver
 
 LEVEL = "other"
-KEYS = ["normalize_cutoff", "_fva_step"]
+KEYS = ["normalize_cutoff", "_fva_step", "find_blocked_reactions"]
 
 
 def run(rep):
-    run_property(rep, KEYS, hooks=C5.HOOKS, explanation=(
-        "Deductive part is thin and stated as such: normalize_cutoff (the threshold both analyses compare fluxes with) is proved "
-        "against its decision table (None -> model tolerance; below tolerance -> ValueError; otherwise the given value) and the FVA "
-        "step that find_blocked_reactions is built on is proved to optimise exactly the requested reaction's net flux and to leave "
-        "the objective as found (C05 kernel). The pandas filtering of find_blocked_reactions, the FASTCC iteration (correctness is "
-        "the paper's theorem, not a per-function contract) and GLPK are NOT proved: bounded driver (returned id list / model against "
-        "exact FVA at fraction 0 on generated models with dead ends, isolated cycles, blocked branches; fastcc result has no blocked "
-        "reaction and exactly the non-blocked ones with unchanged stoichiometry, bounds and rule)."),
-        trusted=["GLPK (assumed, monitored)", "pandas elementwise semantics", "FASTCC algorithm (Vlassis et al.)"])
+    run_property(rep, KEYS, hooks=chain_hooks(C5.HOOKS, C19.HOOKS), explanation=(
+        "Deductive part: normalize_cutoff (the threshold both analyses compare fluxes with) is proved against its decision table "
+        "(None -> model tolerance; below tolerance -> ValueError; otherwise the given value); the FVA step is proved to optimise "
+        "exactly the requested reaction's net flux and to leave the objective as found (C05 kernel); find_blocked_reactions is "
+        "proved as a data-flow statement for every model size and argument shape: inside its own context (closed again), when "
+        "open_exchanges is set every exchange is widened to (min(lb,-1000), max(ub,1000)) and no other reaction is touched (loop "
+        "invariant) BEFORE the pre-filter solution and FVA are computed; the candidates handed to FVA are the requested reactions "
+        "whose flux in one solution is below the normalised cutoff in absolute value; the objective is replaced by Zero before FVA "
+        "runs; FVA runs at fraction_of_optimum 0.0 on exactly those candidates; the answer is the index of the rows whose largest "
+        "absolute range end is below the cutoff. The pandas operations are uninterpreted (opaque algebra), flux_variability_analysis "
+        "and get_solution are abstract calls: that FVA's ranges are TRUE is C05. The FASTCC iteration (correctness is the paper's "
+        "theorem, not a per-function contract) and GLPK are NOT proved: bounded driver (returned id list / model against exact FVA "
+        "at fraction 0 on generated models with dead ends, isolated cycles, blocked branches; fastcc result has no blocked reaction "
+        "and exactly the non-blocked ones with unchanged stoichiometry, bounds and rule)."),
+        trusted=["GLPK (assumed, monitored)", "pandas elementwise semantics (uninterpreted operations)",
+                 "model.exchanges / find_boundary_types returns a list of reactions (assumed; the heuristic itself is not verified)",
+                 "flux_variability_analysis, get_solution, the objective setter as abstract calls (C05 / C04 / C03 cover them)", "FASTCC algorithm (Vlassis et al.)"])
 
 
 def replay(payload):
